@@ -843,6 +843,22 @@ func (fr *Frame) loopEnv(h *ssa.BasicBlock, pv func(*ssa.Phi) *Val) *Env {
 			}
 		}
 	}
+	// $visitedN: visited set of the map iterator of loop N (for invariants of nested loops)
+	for h2, ord := range fr.loopOrd {
+		body2 := fr.loopBody[h2]
+		for b := range body2 {
+			for _, in := range b.Instrs {
+				if nx, ok := in.(*ssa.Next); ok {
+					if rg, ok := nx.Iter.(*ssa.Range); ok && !body2[rg.Block()] {
+						if iv, ok := fr.vals[rg]; ok && iv.K == vIter {
+							gk := "visited:" + iv.It.id
+							env.vars[fmt.Sprintf("$visited%d", ord)] = &Val{K: vTerm, T: "$visited", Srt: fr.u.ghostSort[gk], Heap: gk}
+						}
+					}
+				}
+			}
+		}
+	}
 	// result names: when the function has a single return statement whose operands are already computed
 	// (an accumulator returned at the end), the contract's result names denote them inside the loop
 	if fr.contract != nil && fr.depth == 0 {
